@@ -12,7 +12,7 @@
 
   PROBLEM = (problem hasObj max objLinear objDeg ((sense linear deg g1 g2) ..) ((name lb ub dom) ..) (c ..) c0)
             g1 / g2 = value of the constraint expression at r1.x / r2.x
-  OPTS    = (opts "method" strict useHessian tol)
+  OPTS    = (opts "method" strict useHessian tol x0)   x0 = None | (q ..)
   WORLD   = (world R R LR FAULT)   R = (res success maxIter infeasible posDir (x ..) fun nit)
             LR = (lres success status X fun nit)   FAULT = None | (fault pass STEP baseOnly)
   STATE   = (state CACHE lp lin)   CACHE = None | (key ..)   lin = None | 0 | 1
@@ -105,8 +105,8 @@ def state : Sexp → Option PState
   | _ => none
 
 def opts : Sexp → Option Opts
-  | .list [.atom "opts", m, s, h, t] => do
-    pure { method := ← str m, strict := ← bool s, useHessian := ← bool h, tol := ← opt rat t }
+  | .list [.atom "opts", m, s, h, t, x0] => do
+    pure { method := ← str m, strict := ← bool s, useHessian := ← bool h, tol := ← opt rat t, x0 := ← opt rats x0 }
   | _ => none
 
 /-- the abstract constraint function, tabulated at the two result points -/
@@ -150,7 +150,7 @@ def names (ns : List String) : String := "(" ++ " ".intercalate (ns.map fun n =>
 def event : Event → String
   | .warnRelax s ns => "(warn-relax " ++ s ++ " " ++ names ns ++ ")"
   | .warnRetry => "(warn-retry)"
-  | .minimizeCall a => "(minimize " ++ a.method ++ " jac=" ++ b01 a.useGrad ++ " hess=" ++ b01 a.useHess
+  | .minimizeCall a => "(minimize " ++ a.method ++ " x0=" ++ optS showRats a.x0 ++ " jac=" ++ b01 a.useGrad ++ " hess=" ++ b01 a.useHess
       ++ " bounds=" ++ optS (fun l => "(" ++ " ".intercalate (l.map bnd) ++ ")") a.bounds
       ++ " ncons=" ++ toString a.nCons ++ ")"
   | .linprogCall a => "(linprog " ++ a.method ++ " c=" ++ showRats a.cost
